@@ -122,6 +122,9 @@ type VC struct {
 	defCache    map[string]defEntry
 	factCache   map[string]int
 	writeLog    []writeRec
+	catchStack  []*catchCtx // functions with a deferred recover() that are being executed (innermost last)
+	recoverVals []string    // what recover() returns in the deferred closure being executed
+	nextFreeVars []Val      // bindings of the closure about to be executed
 	allocNames  map[string]int // allocation constants -> position in decls
 	curFn       []*ssa.Function
 	maxDepth    int
@@ -160,6 +163,7 @@ func (vc *VC) declare(name, sort string) {
 func (vc *VC) newRef(st *State, hint string) string {
 	ref := vc.define(hint, sortInt, "(+ "+st.alloc+" 1)")
 	st.alloc = ref
+	vc.trackAlloc(ref)
 	if vc.allocNames == nil {
 		vc.allocNames = map[string]int{}
 	}
@@ -297,6 +301,9 @@ func (vc *VC) heapGet(st *State, key, sort string) string {
 
 func (vc *VC) heapSet(st *State, key, sort, term string) {
 	vc.heapGet(st, key, sort) // make sure the entry version exists
+	for _, c := range vc.catchStack {
+		c.heaps[key] = true
+	}
 	n := vc.fresh(key+"~", sort)
 	vc.asserts = append(vc.asserts, fmt.Sprintf("(= %s %s)", n, term))
 	st.heaps[key] = n
@@ -309,6 +316,9 @@ func (vc *VC) heapHavoc(st *State, key string) {
 	}
 	vc.heapGet(st, key, sort)
 	vc.logWrite(key, "*")
+	for _, c := range vc.catchStack {
+		c.heaps[key] = true
+	}
 	st.heaps[key] = vc.fresh(key+"~h", sort)
 }
 
@@ -330,6 +340,9 @@ func (vc *VC) ghostGet(st *State, name string) string {
 
 func (vc *VC) ghostHavoc(st *State, name string) string {
 	vc.ghostGet(st, name)
+	for _, c := range vc.catchStack {
+		c.ghosts[name] = true
+	}
 	sort := vc.eng.specs.ghostSort[name]
 	n := vc.fresh("G!"+sanitize(name)+"~", sort)
 	st.ghosts[name] = n
@@ -338,6 +351,9 @@ func (vc *VC) ghostHavoc(st *State, name string) string {
 
 func (vc *VC) ghostSet(st *State, name, term string) {
 	vc.ghostGet(st, name)
+	for _, c := range vc.catchStack {
+		c.ghosts[name] = true
+	}
 	sort := vc.eng.specs.ghostSort[name]
 	n := vc.fresh("G!"+sanitize(name)+"~", sort)
 	vc.asserts = append(vc.asserts, fmt.Sprintf("(= %s %s)", n, term))
